@@ -655,22 +655,25 @@ theorem kvApply_sortedWrites (hs : view.Pairwise KeyLt) (hd : writes.Pairwise (f
 set — the root the store reports for the session (C02). -/
 theorem witnessUpdates_replay (hs : H.Sound) (hc : Canon L 0 view) (hlen : ∀ kv ∈ view, kv.1.length = L)
     (hr : ∀ k ∈ reads, k.length = L) (hw : ∀ kw ∈ writes, kw.1.length = L)
-    (hd : writes.Pairwise (fun a b => a.1 ≠ b.1)) (hne : writes ≠ []) :
+    (hd : writes.Pairwise (fun a b => a.1 ≠ b.1)) :
     pathVerifyUpdate H L (nodeAt H L 0 view) (witnessUpdatesL H L view reads writes)
       = .ok (nodeAt H L 0 (kvApply view writes)) := by
   have hsorted : view.Pairwise KeyLt :=
     canon_sorted L 0 view [] hc (by intro kv h; rw [hlen kv h]; omega) (by intro kv _; rfl)
   have hops := allOps_eq_sortedWrites H L view reads writes hs hc hr hw
   have inv := witnessSpecL_inv H L view reads writes hs hc hr hw
-  have hpne : witnessUpdatesL H L view reads writes ≠ [] := by
-    intro e
-    rw [e] at hops
-    cases hwr : writes with
-    | nil => exact hne hwr
-    | cons x xs =>
-      have : x ∈ sortedWrites writes := (mem_sortedWrites writes hd x).mpr (by rw [hwr]; exact List.mem_cons_self)
-      rw [← hops] at this
-      simp [allOps] at this
+  by_cases hpne : witnessUpdatesL H L view reads writes = []
+  · -- no writes at all: `verify_update` of no paths answers the base root
+    have hw0 : writes = [] := by
+      rw [hpne] at hops
+      cases hwr : writes with
+      | nil => rfl
+      | cons x xs =>
+        have : x ∈ sortedWrites writes := (mem_sortedWrites writes hd x).mpr (by rw [hwr]; exact List.mem_cons_self)
+        rw [← hops] at this
+        simp [allOps] at this
+    rw [hpne, hw0]
+    rfl
   have hctx : GlueCtx H L view (witnessUpdatesL H L view reads writes) := by
     refine ⟨hs, hc, hlen, ?_, ?_, witnessUpdates_checkPaths H L view reads writes hs hc hlen hr hw⟩
     · intro p hp
